@@ -383,7 +383,7 @@ def run_c08(pid, tier):
                 for _ in range(rng.randint(0 if d else 1, 3)):
                     files[d + rng.choice(["a", "b", "inner", "k", "zz", "0", "M"]) + rng.choice([".txt", ".bin", ".css", ""])] = rand_bytes(rng, rng.choice([0, 1, 9, 70]))
         files = {p: c for p, c in files.items() if not any(q != p and (q.startswith(p + "/") or p.startswith(q + "/")) for q in files)}
-        to = rng.choice(["assets", "", "v/1"])
+        to = rng.choice(["assets", "", "v/1", "lib/", "/", "a b"])     # the rule is prefix + "/" + relative path whenever the prefix is not empty, whatever it ends in
         # symbolic links among the entries (neither file nor directory for the walker: skipped, and they must not disturb their neighbours)
         links = [('Y', 'st/' + d + nm, tgt) for d in ["", "m/", "z/"] for nm, tgt in [("latest1.js", "a.txt"), ("Cur2", "m"), ("l3.css", "/nonexistent")] if rng.random() < 0.3]
         scen.append([('W', 'st/' + p, c) for p, c in sorted(files.items(), key=lambda x: rng.random())] + links + [('R', [('s',), ('t', 'st', to)])])
